@@ -20,8 +20,11 @@ package contexttags
 //@   ensures result == self.cause
 
 //@ func WithContextTags
-//@   props C10 C07
+//@   props C10 C07 C19 C12
 //@   ensures err == nil ==> result == nil
+// C19: every context that carries a tag buffer - even an empty one - adds a layer holding exactly that buffer
+//@   ensures err != nil && ctxTags(ctx) == nil ==> result == err
+//@   ensures err != nil && ctxTags(ctx) != nil ==> typeis(result, *withContext) && result.(*withContext).cause == err && result.(*withContext).tags == ctxTags(ctx)
 
 //@ func decodeWithContext
 //@   props C05 C01 C11 C03 C12
